@@ -11,7 +11,7 @@ CONSTANTS
   SVs = {0, 1, 2}
   Sizes = {1}
   Stray = FALSE
-  BVals = {1, 2}
+  BVals = {2}
 VIEW View
 INVARIANTS TypeOK C16_PassExact
 PROPERTIES C16_SourceVersionForward C16_CursorsForward C16_RecreateOnlyNewer C16_OlderSourceRefused C16_AckForward C16_FailedUnchanged
